@@ -208,8 +208,10 @@ func (fv *FuncVC) runOnce() {
 			continue
 		}
 		for _, in := range b.Instrs {
+			fv.curIn = in
 			fv.execInstr(in)
 		}
+		fv.curIn = nil
 		fv.leaveBlock(b)
 	}
 	_ = g
